@@ -230,6 +230,15 @@ def main(argv=None):
         jobs = [j for j in jobs if args.only in json.dumps(j)]
     for j in jobs:
         j["budget_s"] = j.get("budget_s", 30) * args.budget_scale
+    # size a tier by total wall time: the per-job CPU budgets are scaled down so that the
+    # whole run fits the target (an exhausted job stops earlier; an unfinished one is
+    # reported inconclusive, never as a pass)
+    target = float(os.environ.get("VF_WALL_TARGET_S", "1200" if tier == "quick" else "2700"))
+    total = sum(j["budget_s"] for j in jobs) / max(1, args.procs)
+    if total > target:
+        k = target / total
+        for j in jobs:
+            j["budget_s"] = max(8.0, j["budget_s"] * k)
     # longest first for better packing
     order = sorted(range(len(jobs)), key=lambda i: -jobs[i].get("budget_s", 30))
     results = run_jobs(jobs, order, args.procs)
